@@ -17,6 +17,10 @@ import json, os, re, subprocess, sys, shutil, tempfile
 ENV = dict(os.environ, GOFLAGS="-mod=mod", GOPROXY="off", GOSUMDB="off", GOTOOLCHAIN="local", GOWORK="off")
 VERIF = os.path.dirname(os.path.dirname(os.path.abspath(__file__)))
 BASE = json.load(open("/root/.vp/BASELINE.json"))["stable_pass"]
+# seeds were written against an earlier HEAD; later fix: commits may shift their context, so fall
+# back to patch(1) with fuzz when git apply refuses
+APPLY_CHECK = "git apply --check %s/patch.diff || patch -p1 --dry-run -F3 -s < %s/patch.diff".replace("%s/patch.diff ||", "{0}/patch.diff ||").replace("< %s/patch.diff", "< {0}/patch.diff")
+APPLY = "git apply {0}/patch.diff || patch -p1 -F3 -s --no-backup-if-mismatch < {0}/patch.diff"
 PKGDIR = {"document": "pkg/document", "style": "pkg/style", "markdown": "pkg/markdown", "test": "test"}
 
 
@@ -65,7 +69,7 @@ def run_demo(wt, seed, race):
 def confirm(seed, wt):
     res = {}
     sh("git checkout -q -- . && git clean -fdq -e _seed", cwd=wt)
-    rc, out = sh("git apply --check %s/patch.diff" % seed, cwd=wt)
+    rc, out = sh(APPLY_CHECK.format(seed), cwd=wt)
     res["applies"] = rc == 0
     if rc != 0:
         res["detail"] = out[-500:]
@@ -76,7 +80,7 @@ def confirm(seed, wt):
     res["demo_passes_without_change"] = ok0
     if not ok0:
         res["demo_out_clean"] = out0
-    sh("git apply %s/patch.diff" % seed, cwd=wt)
+    sh(APPLY.format(seed), cwd=wt)
     rc, out = sh("go build ./pkg/...", cwd=wt)
     res["builds"] = rc == 0
     ok, missing = suite_passes(wt)
@@ -95,9 +99,10 @@ def run_checks(seed):
     if out.strip():
         raise SystemExit("/repo is not clean: " + out)
     fired = {}
-    rc, out = sh("git -C /repo apply %s/patch.diff" % seed)
+    rc, out = sh(APPLY.format(seed), cwd="/repo")
     if rc != 0:
-        return {"error": out}
+        sh("git -C /repo checkout -q -- . && git -C /repo clean -fdq pkg")
+        return {"error": {"exit": 2, "violations": [], "checker_failures": ["patch does not apply to /repo HEAD: " + out[-300:]]}}
     try:
         procs = []
         for i in range(1, 21):
@@ -110,7 +115,7 @@ def run_checks(seed):
             if keys or fails or pr.returncode != 0:
                 fired[p] = {"exit": pr.returncode, "violations": [k + " @" + s for k, s in keys], "checker_failures": fails[:5]}
     finally:
-        sh("git -C /repo checkout -q -- .")
+        sh("git -C /repo checkout -q -- . && git -C /repo clean -fdq pkg")
     return fired
 
 
